@@ -13,7 +13,7 @@
 # limitations under the License.
 """Deduping DNA generator."""
 
-from typing import Any, Tuple, Union
+from typing import Any, Iterable, Tuple, Union
 
 from pyglove.core import symbolic
 from pyglove.core import typing as pg_typing
@@ -131,9 +131,25 @@ class Deduping(DNAGenerator):
     self.generator.feedback(dna, reward)
     self._add_dna_to_cache(dna, reward)
 
+  def recover(
+      self,
+      history: Iterable[Tuple[DNA, Union[None, float, Tuple[float]]]]
+      ) -> None:
+    # NOTE: the inner generator recovers through its own `recover` (which it
+    # may override, e.g. `pg.evolution.Evolution`), so that its counters and
+    # state are restored as well; `_replay` then only rebuilds the cache.
+    history = list(history)
+    self.generator.recover(history)
+    super().recover(history)
+
   def _replay(self, trial_id: int, dna: DNA, reward: Any) -> None:
-    self.generator._replay(trial_id, dna, reward)  # pylint: disable=protected-access
-    self._add_dna_to_cache(dna, reward)
+    del trial_id
+    # Mirror the live path: when the inner generator takes feedback, a DNA is
+    # cached when its reward arrives, otherwise when it is proposed.
+    if not self.needs_feedback:
+      self._add_dna_to_cache(dna, None)
+    elif reward is not None:
+      self._add_dna_to_cache(dna, reward)
 
   def _add_dna_to_cache(
       self, dna: DNA, reward: Union[None, float, Tuple[float]]) -> None:
